@@ -12,7 +12,7 @@ from billiard.exceptions import WorkerLostError
 from harness.hbase import fail, tier, Prune, ND, trace, PART, NPART, untraced, NDCode, CODEMAX
 from harness import world as W
 
-K = tier(5, 6)
+K = tier(3, 4)
 LWT = 10
 
 
@@ -34,7 +34,7 @@ def _size(nd, want):
             k = nd.draw(0, 2)
             if k >= len(p._pool) or p._pool[k].exitcode is not None:
                 raise Prune()
-            w.w_exit(p._pool[k], (-15, -9, 0, 1, 155, 156)[nd.draw(0, 5)])
+            w.w_exit(p._pool[k], (-9, 0, 155)[nd.draw(0, 2)])
         elif e == 1:
             if p._processes >= 4:
                 raise Prune()
@@ -116,8 +116,8 @@ def _recycle(nd, kind, quota, want):
         expect = [('r', t) for t in items]
         w.feed()
     recycled = 0
-    for _ in range(K + 3):
-        e = nd.draw(0, 4)
+    for _ in range(K + 2):
+        e = nd.draw(0, 3)
         if e <= 1:
             x = p._pool[e] if e < len(p._pool) else None
             if x is None or x.exitcode is not None:
@@ -134,18 +134,15 @@ def _recycle(nd, kind, quota, want):
         elif e == 2:
             w.rh()
         elif e == 3:
-            w.adv(nd.draw(0, 3))
             w.tick()
             if len(p._pool) != 2:
                 return fail('C09:size-after-tick')
-        else:
-            # a draining worker whose results were all handled must be free to go
-            for x in p._pool:
-                if x.state == 'draining' and x.exitcode is None and not p._outqueue.q:
-                    ctr = p._on_ready_counters.get(x.pid)
-                    if ctr is None or ctr.value < x.completed:
-                        return fail('C09:held-up:consumed-results-not-credited:' + kind)
-            raise Prune()
+        # a worker that reached its quota and whose results were all handled must be free to go
+        for x in p._pool:
+            if x.state == 'draining' and x.exitcode is None and not p._outqueue.q:
+                ctr = p._on_ready_counters.get(x.pid)
+                if ctr is None or ctr.value < x.completed:
+                    return fail('C09:held-up:consumed-results-not-credited:' + kind)
         for o in obs:
             if o.observe().lost:
                 return fail('C09:job-failed-by-recycling:' + kind)
